@@ -7,6 +7,7 @@ import (
 	"sort"
 	"strings"
 
+	"github.com/JunNishimura/Goit/internal/atomicfile"
 	"github.com/JunNishimura/Goit/internal/sha"
 	"github.com/fatih/color"
 )
@@ -45,14 +46,8 @@ func (b *branch) loadHash(rootGoitPath string) error {
 
 func (b *branch) write(rootGoitPath string) error {
 	branchPath := filepath.Join(rootGoitPath, "refs", "heads", b.Name)
-	f, err := os.Create(branchPath)
-	if err != nil {
-		return fmt.Errorf("fail to create %s: %w", branchPath, err)
-	}
-	defer f.Close()
-
-	if _, err := f.WriteString(b.hash.String()); err != nil {
-		return fmt.Errorf("fail to write hash(%s): %w", b.hash, err)
+	if err := atomicfile.Write(branchPath, rootGoitPath, []byte(b.hash.String())); err != nil {
+		return fmt.Errorf("fail to write hash(%s) to %s: %w", b.hash, branchPath, err)
 	}
 
 	return nil
